@@ -1,7 +1,7 @@
 (** Case formats of the schema-engine correspondence runs.  Scalar values are opaque handles (N) chosen by the
     harness (equal handle <=> equal canonical Python value); the element converters are the tables the harness
     filled by calling the REAL converters, so that only the generic machinery of models/base.py is compared here. *)
-From OfxV Require Import Base.Prelude Model.Schema Model.Convert.
+From OfxV Require Import Base.Prelude Model.Schema Model.Convert Model.Satisfies.
 Local Open Scope string_scope.
 
 Definition hval := N.
@@ -54,7 +54,8 @@ Fixpoint etree_eqb (a b : etree) {struct a} : bool :=
 Inductive ccase :=
 | CFrom (tb : conv_table) (e : etree) (exp : result (hinst * list string))       (* Aggregate.from_etree *)
 | CCons (tb : conv_table) (cn : string) (args : list (kwval hval)) (kw : list (string * kwval hval)) (exp : result hinst)
-| CTo (tb : unconv_table) (i : hinst) (exp : result etree).                         (* instance.to_etree() *)
+| CTo (tb : unconv_table) (i : hinst) (exp : result etree)                          (* instance.to_etree() *)
+| CSat (i : hinst) (exp : bool).                                                    (* independent validator over a real instance, every depth *)
 
 Definition ccase_ok (S : schema) (c : ccase) : bool :=
   match c with
@@ -63,4 +64,5 @@ Definition ccase_ok (S : schema) (c : ccase) : bool :=
                (from_etree hval (tconv tb) S e) exp
   | CCons tb cn args kw exp => result_eqb false inst_eqb (construct hval (tconv tb) S cn args kw) exp
   | CTo tb i exp => result_eqb false etree_eqb (to_etree hval (tunconv tb) S i) exp
+  | CSat i exp => Bool.eqb (deep_satisfies_b hval S i) exp
   end.
